@@ -1,6 +1,8 @@
 package opset13
 
 import (
+	"runtime"
+
 	"github.com/advancedclimatesystems/gonnx/onnx"
 	"github.com/advancedclimatesystems/gonnx/ops"
 	"gorgonia.org/tensor"
@@ -48,6 +50,9 @@ func (c *ConstantOfShape) Init(n *onnx.NodeProto) error {
 			}
 
 			c.value = tensor.New(tensor.WithBacking(t.Data()))
+			// The tensor library builds that backing from the address of the data of t.
+			runtime.KeepAlive(t)
+
 			if c.value.Len() != 1 {
 				return ops.ErrInvalidTensor("expected tensor to have one element", c)
 			}
